@@ -187,18 +187,15 @@ class _MCQuad(torch.autograd.Function):
             ftensor_params = fptensor_params[:nftensorparams]
             ptensor_params = fptensor_params[nftensorparams:]
             with torch.enable_grad():
-                # if graph is constructed, then fptensor_params is a clone of
-                # fptensor_params from outside, therefore, it needs to be put
-                # in the pure function's objects (that's what function_wrap does)
-                if grad_enabled:
-                    fout = function_wrap(ffcn, ctx.fparam_sep, nfparams, x, ftensor_params)
-                    pout = function_wrap(log_pfcn, ctx.pparam_sep, npparams, x, ptensor_params)
-                # if graph is not constructed, then fptensor_params in this
-                # function *is* fptensor_params in the outside, so we can
-                # just use fparams and pparams from the outside
-                else:
-                    fout = ffcn(x, *fparams)
-                    pout = log_pfcn(x, *pparams)
+                # fptensor_params are copies of fptensor_params from outside
+                # (clones if the graph is constructed, detached aliases otherwise),
+                # therefore, they need to be put in the pure function's objects
+                # (that's what function_wrap does).
+                # The copies make the derivative w.r.t. every tensor the partial
+                # one: the dependence of one tensor (e.g. grad_epf or epf) on
+                # another one through the autograd history is left to autograd outside
+                fout = function_wrap(ffcn, ctx.fparam_sep, nfparams, x, ftensor_params)
+                pout = function_wrap(log_pfcn, ctx.pparam_sep, npparams, x, ptensor_params)
             # derivative of fparams
             dLdthetaf = []
             if len(ftensor_params) > 0:
@@ -222,7 +219,7 @@ class _MCQuad(torch.autograd.Function):
         if grad_enabled:
             fptensor_params_copy = [y.clone().requires_grad_() for y in fptensor_params]
         else:
-            fptensor_params_copy = fptensor_params
+            fptensor_params_copy = [y.detach().requires_grad_() for y in fptensor_params]
 
         aug_epfs = _mcquad(aug_function, log_pfcn,
                            x0=xsamples[0],  # unused because xsamples is set
@@ -254,15 +251,7 @@ def _grad_or_zeros(out, params, grad_outputs, create_graph):
                                 retain_graph=True,
                                 create_graph=create_graph,
                                 allow_unused=True)
-    grads = [torch.zeros_like(p) if g is None else g for (g, p) in zip(grads, params)]
-    # a tensor that is supplied in several places (e.g. twice in the params, or in
-    # the params and as a parameter of the object) gets its (total) derivative once
-    seen_ids = set()
-    for i, p in enumerate(params):
-        if id(p) in seen_ids:
-            grads[i] = torch.zeros_like(grads[i])
-        seen_ids.add(id(p))
-    return grads
+    return [torch.zeros_like(p) if g is None else g for (g, p) in zip(grads, params)]
 
 def _integrate(ffcn, xsamples, wsamples, fparams):
     nsamples = len(xsamples)
